@@ -34,6 +34,8 @@ def oracle(ctx, seeds=None):
     for i in range(ctx.n(60, 900)):
         n = int(rng.integers(2, 10))
         cfg = cfg1d.rand_config(rng, model='conv', n=n, scheme=cfg1d.rand_scheme(rng, ['extrapol1', 'extrapol2', 'extrapolk', 'fromm', 'quick', 'extrapol3', 'centered']))
+        if i % 4 == 3:
+            cfg['a'] = cfg['a'] * 2.0 ** int(rng.choice([30, 40, -30]))        # micro / mega time scales: time steps of 1e-9 .. 1e+9 (no absolute tolerance on dt)
         ok, b_ = impl.guarded(cfg1d.build, cfg)
         if not ok:
             res.fail('build:raised', b_, dict(cfg=cfg)); continue
@@ -300,6 +302,10 @@ def oracle(ctx, seeds=None):
         mean = [float(np.mean(np.abs(d))) for d in f.data]
         def run():
             s = impl.integ.implicit(msh, disc)
+            if i % 2:
+                # the integrator object has just linearised ANOTHER state that carries the same time
+                f_other = f.copy(); f_other.data = [np.array(d, dtype=float) * (1.0 + 0.2 * np.cos(np.arange(np.asarray(d).shape[-1]) + k_)) for k_, d in enumerate(f.data)]
+                s.calc_jacobian(f_other)
             J = np.array(s.calc_jacobian(f), dtype=float)
             neq, n = mod.neq, cfg['n']
             Jr = np.zeros_like(J)
